@@ -821,6 +821,12 @@ func (x *VC) evCall(e *SExpr, env *SEnv) *Val {
 		case "contains":
 			a, b := x.ev(args[0], env), x.ev(args[1], env)
 			return bval("(str.contains " + a.T + " " + b.T + ")")
+		case "replaceAll":
+			a, b, c := x.ev(args[0], env), x.ev(args[1], env), x.ev(args[2], env)
+			return x.scalar("(str.replace_all "+a.T+" "+b.T+" "+c.T+")", types.Typ[types.String])
+		case "hasPrefix":
+			a, b := x.ev(args[0], env), x.ev(args[1], env)
+			return bval("(str.prefixof " + b.T + " " + a.T + ")")
 		case "dec":
 			v := x.ev(args[0], env)
 			t := v.T
